@@ -695,6 +695,23 @@ Proof.
   destruct (run_evs v s1 d r) as [s2 o2]. exact IH.
 Qed.
 
+Lemma nm_ok_run_regs e f c cb n : forall s, nm_ok s -> nm_ok (fst (run_regs s e f c cb n)).
+Proof.
+  induction n as [|n IH]; intros s Hnm; [exact Hnm|]. cbn [run_regs].
+  pose proof (nm_ok_add_resp_cb s e f c cb Hnm) as H1.
+  destruct (add_resp_cb s e f c cb) as [s1 o1]. cbn [fst] in H1. specialize (IH s1 H1).
+  destruct (run_regs s1 e f c cb n) as [s2 o2]. exact IH.
+Qed.
+
+Lemma no_response_run_regs e f c cb n : forall s, existsb is_response (snd (run_regs s e f c cb n)) = false.
+Proof.
+  induction n as [|n IH]; intros s; [reflexivity|]. cbn [run_regs].
+  assert (H1 : existsb is_response (snd (add_resp_cb s e f c cb)) = false).
+  { unfold add_resp_cb. destruct (find_lfeat s e (Some f)); [destruct (memN _ _)|]; reflexivity. }
+  destruct (add_resp_cb s e f c cb) as [s1 o1]. specialize (IH s1).
+  destruct (run_regs s1 e f c cb n) as [s2 o2]. cbn [snd] in *. rewrite existsb_app, H1, IH. reflexivity.
+Qed.
+
 Lemma nm_ok_run_seq v l : forall s, nm_ok s -> nm_ok (fst (run_seq v s l)).
 Proof.
   induction l as [|[p d] r IH]; intros s Hnm; [exact Hnm|]. cbn [run_seq].
@@ -723,6 +740,7 @@ Proof.
   - destruct (find_lfeat s e (Some f)) as [lf|]; [|exact Hnm].
     cbn [fst]. eapply nm_ok_sig; [|exact Hnm]. symmetry. apply sig_upd_lfeat. intros x. reflexivity.
   - exact Hnm.
+  - apply nm_ok_run_regs. exact Hnm.
   - pose proof (nm_ok_run_seq v l s Hnm) as H. destruct (run_seq v s l) as [s1 out]. exact H.
   - pose proof (nm_ok_run_evs v d (par_events ps late pf) s Hnm) as H.
     destruct (run_evs v s d (par_events ps late pf)) as [s1 out]. exact H.
@@ -764,6 +782,7 @@ Proof.
   - destruct (find_lfeat s e (Some f)); [destruct (memN _ _)|]; reflexivity.
   - destruct (find_lfeat s e (Some f)); reflexivity.
   - cbn [snd]. rewrite existsb_app, no_response_retn. destruct (N.eqb t T_GENERIC); reflexivity.
+  - cbn [snd]. rewrite no_response_run_regs. reflexivity.
   - destruct (run_seq repaired s l) as [s1 out]. cbn [snd]. rewrite no_response_seq_obs. reflexivity.
   - destruct (run_evs repaired s d (par_events ps late pf)) as [s1 out]. cbn [snd]. rewrite no_response_par_obs. reflexivity.
 Qed.
